@@ -129,7 +129,12 @@ impl Rng {
         let one = BigUint::from(1u32);
         let mask = (&one << bits) - &one;
         let sign = &one << (bits - 1);
-        let v = match self.below(14) {
+        let v = match self.below(18) {
+            // boundaries of the 64-bit quad-words inside a wider value (where u64 short cuts go wrong)
+            14 => BigUint::from(u64::MAX),
+            15 => &one << 64usize.min(bits - 1),
+            16 => (BigUint::from(u64::MAX) << 64usize) | BigUint::from(self.below(2)),
+            17 => BigUint::from(u32::MAX) << (32 * self.below(3)),
             0 => BigUint::from(0u32),
             1 => one.clone(),
             2 => mask.clone(),
